@@ -1,3 +1,422 @@
+// rowdiff, part 3: Sparse_Row (and its Dense_Row twin) and CO_Tree driven directly,
+// against a std::map<dimension_type, Coefficient> model in which an absent key reads 0.
+//
+//   C16.map.<op>      contents / iteration / search result differ from the model
+//   C16.struct.<op>   structural invariant broken after <op>: OK(), keys not strictly
+//                     increasing, element count, last key >= row size, reserved size not
+//                     2^k-1, density outside [38 %, 91 %] (reserved size is read off
+//                     external_memory_in_bytes(), so no hook is needed for this part);
+//                     with PPL_VERIF_HAVE_ROW_HOOKS also the private CO_Tree::OK()
+//                     through the verif_OK() forwarders.
+//   C15.row.*         ascii_dump / ascii_load round trip of rows
+//
+// Hints: `fresh` = obtained for (about) the key just before use; `stale` = obtained some
+// steps earlier for another key and carried across operations that are documented not to
+// invalidate iterators (searches, value writes, swap_coefficients(itr,itr), fast_swap,
+// add_zeroes_and_shift); `end`.  Iterators are never used after an operation documented
+// to invalidate them: that would be the harness' fault.
 #include "rowdiff_common.hh"
-void rd::case_row() {}
-void rd::case_tree() {}
+
+using namespace rd;
+
+namespace {
+
+typedef std::map<dimension_type, Z> Model;
+inline Z val(const Model& m, dimension_type i) { Model::const_iterator it = m.find(i); return it == m.end() ? Z(0) : it->second; }
+std::string show(const Model& m, dimension_type n) { std::ostringstream o; o << "{n=" << n; for (Model::const_iterator i = m.begin(); i != m.end(); ++i) o << " " << i->first << ":" << i->second; o << "}"; return o.str(); }
+std::string show(const Sparse_Row& r) { std::ostringstream o; o << "{n=" << r.size(); for (Sparse_Row::const_iterator i = r.begin(); i != r.end(); ++i) o << " " << i.index() << ":" << *i; o << "}"; return o.str(); }
+
+// reserved size of a tree, from its memory footprint: (R+1)*sizeof(data) + (R+2)*sizeof(index) + limbs
+template <typename It> dimension_type reserved_from_memory(dimension_type mem, It b, It e) {
+  dimension_type limbs = 0; for (It i = b; i != e; ++i) limbs += Parma_Polyhedra_Library::external_memory_in_bytes(*i);
+  if (mem <= limbs) return 0;
+  dimension_type fixed = mem - limbs, per = sizeof(Coefficient) + sizeof(dimension_type), base = sizeof(Coefficient) + 2 * sizeof(dimension_type);
+  if (fixed < base || (fixed - base) % per != 0) return (dimension_type) -1;
+  return (fixed - base) / per;
+}
+// the documented density discipline (CO_Tree_defs.hh: max 91 %, min 38 %), as CO_Tree::OK() states it
+std::string density_problem(dimension_type size, dimension_type R) {
+  if (R == (dimension_type) -1) return "footprint";
+  if (R == 0) return size == 0 ? "" : "reserved0";
+  if (R < 3 || ((R + 1) & R) != 0) return "reserved-not-2k-1";
+  if (size > R) return "size>reserved";
+  if (100 * size > 91 * R && R != 3) return "too-dense";
+  if (100 * size < 38 * R && !(100 * size > 91 * (R / 2))) return "too-sparse";
+  return "";
+}
+
+struct Reserved_Track { dimension_type last; Reserved_Track() : last(0) {} void see(dimension_type R, const char* what) { if (R > last) hx::count(std::string(what) + ".reserved_grew"); else if (R < last) hx::count(std::string(what) + ".reserved_shrank"); last = R; } };
+
+// ---------------------------------------------------------------- Sparse_Row / Dense_Row
+struct RS {
+  Sparse_Row r; Dense_Row d; Model m; dimension_type N; bool exact;   // exact: the model's key set is exactly the stored set
+  Reserved_Track rt;
+  RS() : N(0), exact(true) {}
+};
+
+void dense_from_model(RS& s) { Dense_Row t(s.N, s.N); for (Model::const_iterator i = s.m.begin(); i != s.m.end(); ++i) if (i->second != 0) t[i->first] = i->second; s.d.m_swap(t); }
+
+// full comparison of one row state with its model
+bool check_row(RS& s, const std::string& op, bool check_dense = true) {
+  checked(); hx::count("row_checks");
+  const Sparse_Row& r = s.r;
+  if (!r.OK()) { viol("C16.struct." + op + ":OK", "Sparse_Row::OK() false; row " + show(r) + " model " + show(s.m, s.N)); return false; }
+#ifdef PPL_VERIF_HAVE_ROW_HOOKS
+  if (!r.verif_OK()) { viol("C16.struct." + op + ":tree-OK", "CO_Tree::OK() false; row " + show(r)); return false; }
+  hx::count("row.hooked_OK_checks");
+#endif
+  if (r.size() != s.N) { viol("C16.map." + op + ":size", "size " + std::to_string(r.size()) + " expected " + std::to_string(s.N)); return false; }
+  // iteration: strictly increasing keys below the size, values as in the model
+  dimension_type cnt = 0, last = 0; std::vector<dimension_type> keys;
+  for (Sparse_Row::const_iterator i = r.begin(), e = r.end(); i != e; ++i, ++cnt) {
+    dimension_type k = i.index();
+    if (cnt > 0 && k <= last) { viol("C16.struct." + op + ":order", "keys not strictly increasing at " + std::to_string(k) + " row " + show(r)); return false; }
+    if (k >= s.N) { viol("C16.struct." + op + ":key-beyond-size", "stored key " + std::to_string(k) + " >= size " + std::to_string(s.N)); return false; }
+    if (*i != val(s.m, k)) { viol("C16.map." + op + ":value", "element " + std::to_string(k) + " = " + zs(*i) + " expected " + zs(val(s.m, k)) + " row " + show(r) + " model " + show(s.m, s.N)); return false; }
+    if (s.exact && !s.m.count(k)) { viol("C16.map." + op + ":stored-extra", "key " + std::to_string(k) + " is stored but should not be; row " + show(r) + " model " + show(s.m, s.N)); return false; }
+    last = k; keys.push_back(k);
+    if (cnt > s.N) break;
+  }
+  if (cnt != r.num_stored_elements()) { viol("C16.struct." + op + ":count", "iteration yields " + std::to_string(cnt) + " elements, num_stored_elements() = " + std::to_string(r.num_stored_elements())); return false; }
+  for (Model::const_iterator i = s.m.begin(); i != s.m.end(); ++i) if ((s.exact || i->second != 0) && !std::binary_search(keys.begin(), keys.end(), i->first)) { viol("C16.map." + op + ":missing", "key " + std::to_string(i->first) + " (value " + zs(i->second) + ") is not stored; row " + show(r) + " model " + show(s.m, s.N)); return false; }
+  if (!s.exact) { Model nm; for (size_t j = 0; j < keys.size(); ++j) nm[keys[j]] = val(s.m, keys[j]); s.m.swap(nm); s.exact = true; }   // adopt the stored set after bulk operations
+  // backward iteration
+  if (cnt > 0) { Sparse_Row::const_iterator i = r.end(); size_t j = keys.size(); do { --i; --j; if (i.index() != keys[j]) { viol("C16.struct." + op + ":backward", "backward iteration yields " + std::to_string(i.index()) + " expected " + std::to_string(keys[j])); return false; } } while (j > 0); if (i != r.begin()) { viol("C16.struct." + op + ":backward", "backward iteration does not reach begin()"); return false; } }
+  // random access (all positions for short rows, a sample for long ones)
+  for (dimension_type q = 0, n = s.N; q < n; ++q) { dimension_type k = n <= 64 ? q : (dimension_type) rnd(0, (int) n - 1); if (r.get(k) != val(s.m, k) || r[k] != val(s.m, k)) { viol("C16.map." + op + ":get", "get(" + std::to_string(k) + ") = " + zs(r.get(k)) + " expected " + zs(val(s.m, k))); return false; } if (n > 64 && q >= 48) break; }
+  // density discipline
+  dimension_type R = reserved_from_memory(r.external_memory_in_bytes(), r.begin(), r.end());
+  std::string dp = density_problem(cnt, R);
+  if (!dp.empty()) { viol("C16.struct." + op + ":" + dp, "stored " + std::to_string(cnt) + " reserved " + std::to_string(R) + " row " + show(r)); return false; }
+  s.rt.see(R, "row");
+  if (check_dense) {
+    const Dense_Row& d = s.d;
+    if (!d.OK() || d.size() != s.N) { viol("C16.map." + op + ":dense-size", "dense twin size " + std::to_string(d.size()) + " expected " + std::to_string(s.N)); return false; }
+    for (dimension_type k = 0; k < s.N; ++k) if (d[k] != val(s.m, k)) { viol("C16.map." + op + ":dense-value", "dense twin element " + std::to_string(k) + " = " + zs(d[k]) + " expected " + zs(val(s.m, k))); return false; }
+    if (!(r == d) || !(d == r) || (r != d) || (d != r)) { viol("C16.diff.Row.operator_eq:" + op, "sparse row and its dense twin hold equal values but compare different; row " + show(r)); return false; }
+  }
+  return true;
+}
+
+struct Hint { Sparse_Row::iterator it; bool valid; int age; Hint() : valid(false), age(0) {} };
+
+// picks a hint iterator for row r: fresh (near key), stale (kept), far, or end
+Sparse_Row::iterator pick_hint(Sparse_Row& r, Hint& h, dimension_type key, std::string& kind) {
+  int k = rnd(0, 9);
+  if (h.valid && k < 4) { kind = h.age > 0 ? "stale" : "kept"; hx::count(std::string("row.hint.") + kind); return h.it; }
+  if (k < 6) { kind = "fresh"; hx::count("row.hint.fresh"); return r.lower_bound(key < r.size() ? key : r.size()); }
+  if (k < 7) { kind = "begin"; hx::count("row.hint.begin"); return r.begin(); }
+  if (k < 8 && r.num_stored_elements() > 0) { kind = "far"; hx::count("row.hint.far"); Sparse_Row::iterator i = r.begin(); for (int n = rnd(0, (int) r.num_stored_elements() - 1); n-- > 0; ) ++i; return i; }
+  kind = "end"; hx::count("row.hint.end"); return r.end();
+}
+
+// functors for combine_*: contracts quoted from Sparse_Row_defs.hh
+struct F_mul3 { void operator()(Coefficient& x) const { x *= 3; } };                                             // f(c1) == g(c1, 0)
+struct G_mul_y3 { void operator()(Coefficient& x, Coefficient_traits::const_reference y) const { x *= (y + 3); } }; // does nothing when x == 0
+struct G_add2y { void operator()(Coefficient& x, Coefficient_traits::const_reference y) const { x += 2 * y; } };    // g(c1, 0) does nothing
+struct H_set2y { void operator()(Coefficient& x, Coefficient_traits::const_reference y) const { x = 2 * y; } };     // == g when x == 0
+struct F_mul2 { void operator()(Coefficient& x) const { x *= 2; } };
+struct G_2x3y { void operator()(Coefficient& x, Coefficient_traits::const_reference y) const { x *= 2; x += 3 * y; } };
+struct H_3y { void operator()(Coefficient& x, Coefficient_traits::const_reference y) const { x = 3 * y; } };
+
+} // namespace
+
+void rd::case_row() {
+  poison().clear();
+  const int NR = 2; RS S[NR]; Hint H[NR];
+  // size regime: small rows, or rows whose population sweeps across the 3/7/15/31/63/127 reserved sizes
+  const int regime = rnd(0, 9);
+  const dimension_type N0 = regime < 3 ? rnd(1, 12) : regime < 8 ? rnd(20, 160) : rnd(150, 400);
+  for (int i = 0; i < NR; ++i) { S[i].N = i == 0 ? N0 : (coin() ? N0 : (dimension_type) rnd(1, (int) N0)); Sparse_Row t(S[i].N); S[i].r.m_swap(t); dense_from_model(S[i]); }
+  const int steps = regime < 3 ? rnd(15, 50) : rnd(60, 260);
+  int phase_len = rnd(20, 80); bool growing = true;
+  tr("rows n=" + std::to_string(S[0].N) + "," + std::to_string(S[1].N));
+  for (int st = 0; st < steps && !hx::st().case_tainted; ++st) {
+    if (st % phase_len == phase_len - 1) growing = !growing;
+    int a = rnd(0, 3) ? 0 : 1, b = 1 - a; RS& A = S[a]; RS& B = S[b]; Sparse_Row& r = A.r; Dense_Row& d = A.d; Model& m = A.m; Hint& h = H[a];
+    dimension_type N = A.N; if (N == 0) { r.resize(3); d.resize(3); A.N = N = 3; h.valid = false; }
+    dimension_type i = rnd(0, (int) N - 1), j = rnd(0, (int) N - 1); Z x = rand_z(true);
+    std::ostringstream t; t << " | r" << a << "."; std::string op; bool invalidates = true, dense_ok = true;
+    // operation mix: growth phases favour insertions, shrink phases favour erasures
+    int w = rnd(0, 99); int kind;
+    if (growing) kind = w < 45 ? rnd(0, 5) : w < 55 ? rnd(6, 11) : rnd(12, 39);
+    else kind = w < 45 ? rnd(6, 11) : w < 55 ? rnd(0, 5) : rnd(12, 39);
+    RD_GUARD_BEGIN
+    try {
+      switch (kind) {
+      // ---- insertions
+      case 0: { op = "insert_value"; t << op << "(" << i << "," << x << ")"; tr(t.str()); Sparse_Row::iterator it = r.insert(i, x); m[i] = x; d.insert(i, x); if (it == r.end() || it.index() != i || *it != x) { viol("C16.map.insert_value:returned-iterator", "insert(i,x) returned an iterator that is not at i"); return; } h.it = it; h.valid = true; h.age = -1; invalidates = false; break; }
+      case 1: { op = "insert_key"; t << op << "(" << i << ")"; tr(t.str()); Sparse_Row::iterator it = r.insert(i); if (!m.count(i)) m[i] = 0; if (it == r.end() || it.index() != i || *it != val(m, i)) { viol("C16.map.insert_key:returned-iterator", "insert(i) returned an iterator that is not at i / changed the value"); return; }
+        if (coin()) { *it = x; m[i] = x; d[i] = x; } h.it = it; h.valid = true; h.age = -1; invalidates = false; break; }
+      case 2: case 3: { std::string hk; Sparse_Row::iterator hint = pick_hint(r, h, i, hk); op = "insert_hint_value"; t << op << "[" << hk << "](" << i << "," << x << ")"; tr(t.str()); Sparse_Row::iterator it = r.insert(hint, i, x); m[i] = x; d.insert(i, x);
+        if (it == r.end() || it.index() != i || *it != x) { viol("C16.map.insert_hint_value:returned-iterator-" + hk + "-hint", "returned iterator not at the inserted key"); return; } h.it = it; h.valid = true; h.age = -1; invalidates = false; op += "." + hk; break; }
+      case 4: { std::string hk; Sparse_Row::iterator hint = pick_hint(r, h, i, hk); op = "insert_hint_key"; t << op << "[" << hk << "](" << i << ")"; tr(t.str()); Sparse_Row::iterator it = r.insert(hint, i); if (!m.count(i)) m[i] = 0;
+        if (it == r.end() || it.index() != i || *it != val(m, i)) { viol("C16.map.insert_hint_key:returned-iterator-" + hk + "-hint", "returned iterator not at the key / value changed"); return; } h.it = it; h.valid = true; h.age = -1; invalidates = false; op += "." + hk; break; }
+      case 5: { op = "subscript_write"; t << op << "(" << i << "," << x << ")"; tr(t.str()); r[i] = x; m[i] = x; d[i] = x; break; }
+      // ---- erasures
+      case 6: { op = "reset_index"; t << op << "(" << i << ")"; tr(t.str()); r.reset(i); m.erase(i); d.reset(i); break; }
+      case 7: { Sparse_Row::iterator it = r.lower_bound(i); if (it == r.end()) { op.clear(); break; } dimension_type k = it.index(); op = "reset_iterator"; t << op << "(" << k << ")"; tr(t.str()); Sparse_Row::iterator nx = r.reset(it); m.erase(k); d.reset(k);
+        Model::const_iterator mn = m.upper_bound(k); if (mn == m.end() ? nx != r.end() : (nx == r.end() || nx.index() != mn->first)) { viol("C16.map.reset_iterator:returned-iterator", "reset(itr) did not return the successor of " + std::to_string(k)); return; }
+        h.it = nx; h.valid = true; h.age = -1; invalidates = false; break; }
+      case 8: { if (i > j) std::swap(i, j); Sparse_Row::iterator f = r.lower_bound(i), l = r.lower_bound(j);
+        // Sparse_Row::reset(first,last) asserts last != end() unless the range is empty: reset_after covers the tail case
+        if (l == r.end() && f != l) { op.clear(); break; }
+        op = "reset_range"; t << op << "(" << i << "," << j << ")"; tr(t.str());
+        Sparse_Row::iterator nx = r.reset(f, l); for (Model::iterator q = m.lower_bound(i); q != m.end() && q->first < j; ) m.erase(q++); for (dimension_type k = i; k < j; ++k) d.reset(k);
+        Model::const_iterator mn = m.lower_bound(j); if (mn == m.end() ? nx != r.end() : (nx == r.end() || nx.index() != mn->first)) { viol("C16.map.reset_range:returned-iterator", "reset(first,last) did not return the element after the range"); return; } h.it = nx; h.valid = true; h.age = -1; invalidates = false; break; }
+      case 9: { op = "erase_during_iteration"; int pct = rnd(10, 90); t << op << "(" << pct << "%)"; tr(t.str());
+        Sparse_Row::iterator it = coin() ? r.begin() : r.lower_bound(i); while (it != r.end()) { dimension_type k = it.index(); if (coin(pct)) { it = r.reset(it); m.erase(k); d.reset(k); } else { if (coin(20)) { *it = x; m[k] = x; d[k] = x; } ++it; } } break; }
+      case 10: { op = "reset_after"; t << op << "(" << i << ")"; tr(t.str()); r.reset_after(i); for (Model::iterator q = m.lower_bound(i); q != m.end(); ) m.erase(q++); for (dimension_type k = i; k < N; ++k) d.reset(k); break; }
+      case 11: { if (coin(80)) { op.clear(); break; } op = "clear"; t << op << "()"; tr(t.str()); r.clear(); m.clear(); d.clear(); break; }
+      // ---- searches (const and non-const, hinted or not): no effect, answers against the model
+      case 12: case 13: case 14: case 15: { op = "search"; std::string hk; Sparse_Row::iterator hint = pick_hint(r, h, i, hk); t << op << "[" << hk << "](" << i << ")"; tr(t.str()); checked(); invalidates = false; const Sparse_Row& cr = r; Sparse_Row::const_iterator chint = hint;
+        Model::const_iterator lb = m.lower_bound(i); bool has = m.count(i) != 0;
+        Sparse_Row::iterator f1 = r.find(i), f2 = r.find(hint, i), l1 = r.lower_bound(i), l2 = r.lower_bound(hint, i);
+        Sparse_Row::const_iterator f3 = cr.find(i), f4 = cr.find(chint, i), l3 = cr.lower_bound(i), l4 = cr.lower_bound(chint, i);
+        bool okf = has ? (f1 != r.end() && f1.index() == i && f2 != r.end() && f2.index() == i && f3 != cr.end() && f3.index() == i && f4 != cr.end() && f4.index() == i && *f1 == m[i] && *f4 == m[i]) : (f1 == r.end() && f2 == r.end() && f3 == cr.end() && f4 == cr.end());
+        if (!okf) { viol("C16.map.find:" + hk + "-hint", "find(" + std::to_string(i) + ") wrong; row " + show(r) + " model " + show(m, N)); return; }
+        bool okl = lb == m.end() ? (l1 == r.end() && l2 == r.end() && l3 == cr.end() && l4 == cr.end()) : (l1 != r.end() && l1.index() == lb->first && l2 != r.end() && l2.index() == lb->first && l3 != cr.end() && l3.index() == lb->first && l4 != cr.end() && l4.index() == lb->first);
+        if (!okl) { viol("C16.map.lower_bound:" + hk + "-hint", "lower_bound(" + std::to_string(i) + ") wrong; row " + show(r) + " model " + show(m, N)); return; }
+        // lower_bound(size()) is allowed and is end()
+        if (r.lower_bound(N) != r.end() || cr.lower_bound(chint, N) != cr.end()) { viol("C16.map.lower_bound:at-size", "lower_bound(size()) is not end()"); return; }
+        if (!h.valid || coin(40)) { h.it = coin() ? l1 : f2; h.valid = true; h.age = -1; } op += "." + hk; break; }
+      // ---- swaps inside a row
+      case 16: case 17: { op = "swap_coefficients"; if (coin(10)) j = i; t << op << "(" << i << "," << j << ")"; tr(t.str()); r.swap_coefficients(i, j); d.swap_coefficients(i, j);
+        bool hi = m.count(i), hj = m.count(j); Z vi = val(m, i), vj = val(m, j); if (hi && hj) { m[i] = vj; m[j] = vi; } else if (hi) { m.erase(i); m[j] = vi; } else if (hj) { m.erase(j); m[i] = vj; } break; }
+      case 18: { if (r.num_stored_elements() < 1) { op.clear(); break; } Sparse_Row::iterator p = r.lower_bound(i), q = r.lower_bound(j); if (p == r.end()) p = r.begin(); if (q == r.end()) q = r.begin(); dimension_type pi = p.index(), qi = q.index();
+        op = "swap_coefficients_iterators"; t << op << "(" << pi << "," << qi << ")"; tr(t.str()); r.swap_coefficients(p, q); d.swap_coefficients(pi, qi); std::swap(m[pi], m[qi]); invalidates = false;
+        if (p.index() != pi || q.index() != qi) { viol("C16.map.swap_coefficients_iterators:iterator-moved", "O(1) swap of values moved an iterator"); return; } break; }
+      case 19: { Sparse_Row::iterator p = r.lower_bound(i); if (p == r.end()) { op.clear(); break; } dimension_type k = p.index(); Model::const_iterator pm = m.find(k); dimension_type lo = 0; if (pm != m.begin()) { --pm; lo = pm->first + 1; }
+        dimension_type to = (dimension_type) rnd((int) lo, (int) k); op = "fast_swap"; t << op << "(" << to << ",@" << k << ")"; tr(t.str()); p = r.lower_bound(to); r.fast_swap(to, p); Z v = m[k]; m.erase(k); m[to] = v; d.swap_coefficients(to, k); invalidates = false;
+        if (p.index() != to || *p != v) { viol("C16.map.fast_swap:iterator", "iterator does not follow the element to its new key"); return; } h.it = p; h.valid = true; h.age = -1; break; }
+      // ---- shifts and sizes
+      case 20: case 21: { if (N > 600) { op.clear(); break; } dimension_type pos = rnd(0, (int) N), n2 = coin(10) ? 0 : rnd(1, regime < 3 ? 3 : 12); op = "add_zeroes_and_shift"; t << op << "(" << n2 << "," << pos << ")"; tr(t.str());
+        dimension_type hk = 0; bool hv = h.valid && h.it != r.end(); if (hv) hk = h.it.index();
+        r.add_zeroes_and_shift(n2, pos); d.add_zeroes_and_shift(n2, pos); Model nm; for (Model::const_iterator q = m.begin(); q != m.end(); ++q) nm[q->first >= pos ? q->first + n2 : q->first] = q->second; m.swap(nm); A.N = N + n2; invalidates = false;
+        // documented: existing iterators stay valid and follow their (shifted) elements
+        if (hv) { checked(); dimension_type want = hk >= pos ? hk + n2 : hk; if (h.it.index() != want || *h.it != val(m, want)) { viol("C16.map.add_zeroes_and_shift:kept-iterator", "iterator at key " + std::to_string(hk) + " now reads key " + std::to_string(h.it.index()) + " expected " + std::to_string(want)); return; } }
+        break; }
+      case 22: case 23: { if (N < 2) { op.clear(); break; } op = "delete_element_and_shift"; t << op << "(" << i << ")"; tr(t.str()); r.delete_element_and_shift(i); Model nm; for (Model::const_iterator q = m.begin(); q != m.end(); ++q) { if (q->first == i) continue; nm[q->first > i ? q->first - 1 : q->first] = q->second; } m.swap(nm); A.N = N - 1; dense_from_model(A); break; }
+      case 24: { dimension_type n2 = coin() ? (dimension_type) rnd(0, (int) N) : N + rnd(0, 20); if (n2 == 0) n2 = 1; int how = rnd(0, 2); op = how == 0 ? "resize" : n2 <= N ? "shrink" : "expand_within_capacity"; t << op << "(" << n2 << ")"; tr(t.str());
+        if (op == "resize") r.resize(n2); else if (op == "shrink") r.shrink(n2); else r.expand_within_capacity(n2); d.resize(n2); for (Model::iterator q = m.lower_bound(n2); q != m.end(); ) m.erase(q++); A.N = n2; break; }
+      // ---- bulk arithmetic
+      case 25: { op = "normalize"; t << op << "()"; tr(t.str()); r.normalize(); d.normalize(); Z g = 0; for (Model::const_iterator q = m.begin(); q != m.end(); ++q) if (q->second != 0) { Z av = abs(q->second); if (g == 0) g = av; else { Z tt; mpz_gcd(tt.get_mpz_t(), g.get_mpz_t(), av.get_mpz_t()); g = tt; } } if (g > 1) for (Model::iterator q = m.begin(); q != m.end(); ++q) q->second /= g; invalidates = false; break; }
+      case 26: case 27: case 28: case 29: case 30: { // linear_combine, all overloads and representation mixes
+        Z c1 = coin(35) ? Z(1) : rand_z(true), c2 = coin(25) ? Z(coin() ? 1 : -1) : rand_z(true); bool ranged = coin(); int mix = rnd(0, 4);
+        // the argument: a copy of the other row, brought to the receiver's size (or, rarely, left shorter: asserted-legal for the free functions)
+        bool shorter = !ranged && B.N < N && mix >= 1 && mix <= 3 && coin(15);
+        Sparse_Row ys(B.r); Model my = B.m; dimension_type yn = B.N; if (!shorter) { ys.resize(N); for (Model::iterator q = my.lower_bound(N); q != my.end(); ) my.erase(q++); yn = N; }
+        Dense_Row yd(ys);
+        dimension_type s0 = 0, e0 = yn; if (ranged) { s0 = rnd(0, (int) std::min(N, yn)); e0 = rnd(0, (int) std::min(N, yn)); if (s0 > e0) std::swap(s0, e0); }
+        const char* mixn[5] = { "member_SS", "free_SS", "free_SD", "free_DS_then_copy", "dense_member_then_copy" };
+        op = std::string("linear_combine") + (ranged ? "_range." : ".") + mixn[mix]; t << op << "(r" << b << "," << c1 << "," << c2; if (ranged) t << "," << s0 << "," << e0; t << ")" << (shorter ? "[y shorter]" : ""); tr(t.str());
+        for (dimension_type k = ranged ? s0 : 0, ke = ranged ? e0 : N; k < ke; ++k) { Z v = val(m, k) * c1 + val(my, k) * c2; if (v != 0 || m.count(k)) m[k] = v; }
+        A.exact = false;
+        switch (mix) {
+        case 0: if (ranged) r.linear_combine(ys, c1, c2, s0, e0); else r.linear_combine(ys, c1, c2); break;
+        case 1: if (ranged) linear_combine(r, ys, c1, c2, s0, e0); else linear_combine(r, ys, c1, c2); break;
+        case 2: if (ranged) linear_combine(r, yd, c1, c2, s0, e0); else linear_combine(r, yd, c1, c2); break;
+        case 3: { Dense_Row xd(r); if (ranged) linear_combine(xd, ys, c1, c2, s0, e0); else linear_combine(xd, ys, c1, c2); r = xd; break; }
+        default: { Dense_Row xd(r); if (ranged) xd.linear_combine(yd, c1, c2, s0, e0); else if (!shorter) xd.linear_combine(yd, c1, c2); else linear_combine(xd, ys, c1, c2); Sparse_Row nr(xd); r.m_swap(nr); break; }
+        }
+        if (shorter) op += "@y-shorter";
+        dense_from_model(A); break; }
+      case 31: case 32: { int w2 = rnd(0, 2); Sparse_Row ys(B.r); ys.resize(N); Model my = B.m; for (Model::iterator q = my.lower_bound(N); q != my.end(); ) my.erase(q++);
+        op = w2 == 0 ? "combine_needs_first" : w2 == 1 ? "combine_needs_second" : "combine"; t << op << "(r" << b << ")"; tr(t.str());
+        if (w2 == 0) { r.combine_needs_first(ys, F_mul3(), G_mul_y3()); for (Model::iterator q = m.begin(); q != m.end(); ++q) q->second *= (val(my, q->first) + 3); }
+        else if (w2 == 1) { r.combine_needs_second(ys, G_add2y(), H_set2y()); for (Model::const_iterator q = my.begin(); q != my.end(); ++q) m[q->first] = val(m, q->first) + 2 * q->second; }
+        else { r.combine(ys, F_mul2(), G_2x3y(), H_3y()); std::set<dimension_type> ks; for (Model::const_iterator q = m.begin(); q != m.end(); ++q) ks.insert(q->first); for (Model::const_iterator q = my.begin(); q != my.end(); ++q) ks.insert(q->first); for (std::set<dimension_type>::const_iterator q = ks.begin(); q != ks.end(); ++q) m[*q] = 2 * val(m, *q) + 3 * val(my, *q); }
+        A.exact = false; dense_from_model(A); break; }
+      // ---- whole-row operations
+      case 33: { int how = rnd(0, 4); op = how == 0 ? "m_swap" : how == 1 ? "swap" : how == 2 ? "swap_sparse_dense" : how == 3 ? "swap_dense_sparse" : "swap_dense_twins"; t << op << "(r" << b << ")"; tr(t.str());
+        using std::swap;
+        if (how == 0) { r.m_swap(B.r); d.m_swap(B.d); }
+        else if (how == 1) { swap(r, B.r); swap(d, B.d); }
+        else if (how == 2) { swap(r, B.d); swap(B.r, d); }        // sparse <-> dense exchange, both directions: values travel through the other representation
+        else if (how == 3) { swap(B.d, r); swap(d, B.r); }
+        else { swap(d, B.d); swap(r, B.r); }
+        m.swap(B.m); std::swap(A.N, B.N); std::swap(A.exact, B.exact); A.exact = B.exact = false; H[0].valid = H[1].valid = false; break; }
+      case 34: { int how = rnd(0, 6); const char* nm[7] = { "copy_construct", "assign", "from_dense", "assign_dense", "copy_capacity", "copy_size_capacity", "dense_round_trip" }; op = nm[how]; t << op << "(r" << b << ")"; tr(t.str());
+        if (how == 0) { Sparse_Row c(B.r); r.m_swap(c); m = B.m; A.N = B.N; A.exact = B.exact; }
+        else if (how == 1) { r = B.r; m = B.m; A.N = B.N; A.exact = B.exact; }
+        else if (how == 2) { Sparse_Row c(B.d); r.m_swap(c); m = B.m; A.N = B.N; A.exact = false; }
+        else if (how == 3) { r = B.d; m = B.m; A.N = B.N; A.exact = false; }
+        else if (how == 4) { Sparse_Row c(B.r, B.N + rnd(0, 5)); r.m_swap(c); m = B.m; A.N = B.N; A.exact = B.exact; }
+        else if (how == 5) { dimension_type sz = coin() ? (dimension_type) rnd(1, (int) B.N) : B.N + rnd(0, 9); Sparse_Row c(B.r, sz, sz + rnd(0, 3)); r.m_swap(c); m = B.m; for (Model::iterator q = m.lower_bound(sz); q != m.end(); ) m.erase(q++); A.N = sz; A.exact = B.exact; }
+        else { Dense_Row c(B.r); Sparse_Row c2(c); Dense_Row c3(c2, c2.size(), c2.size() + 2); r = c3; m = B.m; A.N = B.N; A.exact = false; }
+        dense_from_model(A); break; }
+      case 35: { // truncating conversions between the two row types
+        dimension_type sz = rnd(1, (int) B.N); bool ds = coin(); op = ds ? "sparse_from_dense_truncated" : "dense_from_sparse_truncated"; t << op << "(r" << b << "," << sz << ")"; tr(t.str());
+        if (ds && !coin((int) hx::opt().geti("truncds", 10))) { hx::count("row.skip.truncds"); op.clear(); break; }
+        if (ds) { bool beyond = B.m.lower_bound(sz) != B.m.end() && sz < B.N; Sparse_Row c(B.d, sz, sz + 1); r.m_swap(c); if (beyond) poison() = "truncating-dense-to-sparse"; }
+        else { Dense_Row c(B.r, sz, sz + 1); r = c; }
+        m = B.m; for (Model::iterator q = m.lower_bound(sz); q != m.end(); ) m.erase(q++); for (Model::iterator q = m.begin(); q != m.end(); ) if (q->second == 0) m.erase(q++); else ++q; A.N = sz; A.exact = false; dense_from_model(A); break; }
+      case 36: { // ascii round trip, both row types
+        op = "ascii_load"; t << op << "()"; tr(t.str()); checked(); hx::count("ascii_roundtrips");
+        std::string t1 = dump(r); Sparse_Row L(rnd(1, 5)); if (coin()) L.insert(0, Z(7)); std::istringstream in(t1);
+        if (!L.ascii_load(in)) { viol("C15.row.Sparse_Row.ascii_load_failed", clip(t1)); return; }
+        if (dump(L) != t1) { viol("C15.row.Sparse_Row.redump_differs", clip(t1) + " vs " + clip(dump(L))); return; }
+        if (!(L == r) || !L.OK()) { viol("C15.row.Sparse_Row.value_differs", clip(t1)); return; }
+        std::string t2 = dump(d); Dense_Row LD; std::istringstream in2(t2);
+        if (!LD.ascii_load(in2)) { viol("C15.row.Dense_Row.ascii_load_failed", clip(t2)); return; }
+        if (dump(LD) != t2) { viol("C15.row.Dense_Row.redump_differs", clip(t2) + " vs " + clip(dump(LD))); return; }
+        if (!(LD == d) || !LD.OK()) { viol("C15.row.Dense_Row.value_differs", clip(t2)); return; }
+        r.m_swap(L); d.m_swap(LD); break; }
+      case 37: { // burst of insertions at increasing keys with the previous position as hint (the pattern PPL's own clients use)
+        op = "insert_burst"; int n = rnd(3, regime < 3 ? 6 : 40); t << op << "(" << n << ")"; tr(t.str()); Sparse_Row::iterator it = coin() ? r.end() : r.begin(); dimension_type k = rnd(0, (int) N - 1);
+        for (int q = 0; q < n && k < N; ++q) { Z v = rand_z(true); it = r.insert(it, k, v); m[k] = v; d[k] = v; if (it.index() != k) { viol("C16.map.insert_burst:returned-iterator", "hinted insert returned an iterator at another key"); return; } k += rnd(1, 4); }
+        break; }
+      case 38: { // burst of erasures
+        op = "reset_burst"; int n = rnd(3, regime < 3 ? 6 : 40); t << op << "(" << n << ")"; tr(t.str()); for (int q = 0; q < n && !m.empty(); ++q) { Model::iterator p = m.lower_bound(rnd(0, (int) N - 1)); if (p == m.end()) p = m.begin(); dimension_type k = p->first; if (coin()) r.reset(k); else r.reset(r.find(k)); m.erase(p); d.reset(k); } break; }
+      default: { // memory accounting is an observer
+        op = "memory"; t << op << "()"; tr(t.str()); invalidates = false; (void) r.total_memory_in_bytes(); (void) r.external_memory_in_bytes(N); (void) r.total_memory_in_bytes(N); (void) d.total_memory_in_bytes(); if (Sparse_Row::max_size() < N) { viol("C16.map.max_size", "max_size() below an existing size"); return; } break; }
+      }
+    } catch (const Logical_Timeout&) { throw; }
+    catch (const std::exception& e) { viol("C16.map." + (op.empty() ? std::string("unknown") : op) + ":unexpected-exception", std::string(typeid(e).name()) + ": " + e.what()); return; }
+    RD_GUARD_END("Sparse_Row." + op)
+    if (op.empty()) continue;
+    if (invalidates) h.valid = false; else if (h.valid) ++h.age;
+    std::string opb = op.substr(0, op.find('@'));
+    hx::count("op.row." + opb.substr(0, opb.find('.')));
+    { dimension_type ns = A.r.num_stored_elements(), R = S[a].rt.last; hx::distinct("row|" + opb + "|R" + std::to_string(R) + "|fill" + std::to_string(R ? (10 * ns) / R : 0)); }
+    std::string key_op = opb; if (op.find('@') != std::string::npos && poison().empty()) { poison() = op.substr(op.find('@') + 1); }
+    bool ok = check_row(A, key_op, dense_ok) && check_row(B, key_op, dense_ok);
+    if (op.find("@y-shorter") != std::string::npos) poison().clear();
+    if (!ok) return;
+  }
+}
+
+// ---------------------------------------------------------------- CO_Tree
+namespace {
+
+struct TS { CO_Tree t; Model m; Reserved_Track rt; };
+
+// an input iterator over a Model, with the index() member CO_Tree's sequence constructor wants
+struct Model_It {
+  Model::const_iterator i;
+  explicit Model_It(Model::const_iterator j) : i(j) {}
+  Model_It& operator++() { ++i; return *this; }
+  Model_It operator++(int) { Model_It t(*this); ++i; return t; }
+  Coefficient_traits::const_reference operator*() const { return i->second; }
+  dimension_type index() const { return i->first; }
+};
+
+bool check_tree(TS& s, const std::string& op) {
+  checked(); hx::count("tree_checks");
+  const CO_Tree& t = s.t;
+#ifdef PPL_VERIF_HAVE_ROW_HOOKS
+  if (!t.verif_OK()) { viol("C16.struct." + op + ":tree-OK", "CO_Tree::OK() false"); return false; }
+  hx::count("tree.hooked_OK_checks");
+#endif
+  if (t.size() != s.m.size() || t.empty() != s.m.empty()) { viol("C16.map." + op + ":size", "size " + std::to_string(t.size()) + " expected " + std::to_string(s.m.size())); return false; }
+  Model::const_iterator q = s.m.begin(); dimension_type cnt = 0;
+  for (CO_Tree::const_iterator i = t.begin(), e = t.end(); i != e; ++i, ++q, ++cnt) {
+    if (q == s.m.end()) { viol("C16.struct." + op + ":count", "iteration yields more elements than size()"); return false; }
+    if (i.index() != q->first) { viol("C16.map." + op + ":key", "iteration position " + std::to_string(cnt) + " has key " + std::to_string(i.index()) + " expected " + std::to_string(q->first) + " model " + show(s.m, 0)); return false; }
+    if (*i != q->second) { viol("C16.map." + op + ":value", "key " + std::to_string(q->first) + " holds " + zs(*i) + " expected " + zs(q->second)); return false; }
+  }
+  if (q != s.m.end()) { viol("C16.struct." + op + ":count", "iteration yields fewer elements than size()"); return false; }
+  if (cnt > 0) { CO_Tree::const_iterator i = t.end(); Model::const_iterator p = s.m.end(); do { --i; --p; if (i.index() != p->first) { viol("C16.struct." + op + ":backward", "backward iteration yields " + std::to_string(i.index()) + " expected " + std::to_string(p->first)); return false; } } while (p != s.m.begin()); if (i != t.begin()) { viol("C16.struct." + op + ":backward", "backward iteration does not reach begin()"); return false; } }
+  dimension_type R = reserved_from_memory(t.external_memory_in_bytes(), t.begin(), t.end());
+  std::string dp = density_problem(cnt, R);
+  if (!dp.empty()) { viol("C16.struct." + op + ":" + dp, "stored " + std::to_string(cnt) + " reserved " + std::to_string(R)); return false; }
+  s.rt.see(R, "tree");
+  return true;
+}
+
+// bisect*: "if found, points to it; otherwise to the immediately preceding or succeeding value; end() iff the tree is empty"
+bool bisect_ok(const Model& m, dimension_type key, bool is_end, dimension_type got) {
+  if (m.empty()) return is_end;
+  if (is_end) return false;
+  if (m.count(key)) return got == key;
+  Model::const_iterator up = m.lower_bound(key);
+  if (up != m.end() && got == up->first) return true;
+  if (up != m.begin()) { --up; if (got == up->first) return true; }
+  return false;
+}
+
+} // namespace
+
+void rd::case_tree() {
+  poison().clear();
+  TS S[2];
+  const int regime = rnd(0, 9);
+  const dimension_type KMAX = regime < 3 ? 20 : regime < 8 ? 400 : 100000;      // key universe
+  const int steps = regime < 3 ? rnd(20, 60) : rnd(80, 320);
+  int phase_len = rnd(25, 90); bool growing = true;
+  CO_Tree::iterator kept; bool kept_valid = false; int kept_age = -1;
+  tr("tree kmax=" + std::to_string(KMAX));
+  for (int st = 0; st < steps && !hx::st().case_tainted; ++st) {
+    if (st % phase_len == phase_len - 1) growing = !growing;
+    int a = rnd(0, 4) ? 0 : 1; TS& A = S[a]; TS& B = S[1 - a]; CO_Tree& t = A.t; Model& m = A.m;
+    dimension_type key = rnd(0, (int) KMAX - 1); Z x = rand_z();
+    if (a != 0) kept_valid = false;                        // the kept iterator belongs to tree 0
+    std::ostringstream o; o << " | t" << a << "."; std::string op; bool invalidates = true;
+    int w = rnd(0, 99); int kind;
+    if (growing) kind = w < 55 ? rnd(0, 4) : w < 62 ? rnd(5, 8) : rnd(9, 24);
+    else kind = w < 55 ? rnd(5, 8) : w < 62 ? rnd(0, 4) : rnd(9, 24);
+    auto hint = [&](std::string& hk) -> CO_Tree::iterator {
+      int k = rnd(0, 9);
+      if (a == 0 && kept_valid && k < 4) { hk = kept_age ? "stale" : "kept"; hx::count("tree.hint." + hk); return kept; }
+      if (k < 6 && !t.empty()) { hk = "fresh"; hx::count("tree.hint.fresh"); return t.bisect(key); }
+      if (k < 7) { hk = "begin"; hx::count("tree.hint.begin"); return t.begin(); }
+      if (k < 8 && !t.empty()) { hk = "far"; hx::count("tree.hint.far"); CO_Tree::iterator i = t.begin(); for (int n = rnd(0, (int) std::min<dimension_type>(t.size() - 1, 50)); n-- > 0; ) ++i; return i; }
+      hk = "end"; hx::count("tree.hint.end"); return t.end();
+    };
+    RD_GUARD_BEGIN
+    try {
+      switch (kind) {
+      case 0: { op = "insert_key"; o << op << "(" << key << ")"; tr(o.str()); CO_Tree::iterator it = t.insert(key); if (!m.count(key)) m[key] = 0; if (it == t.end() || it.index() != key || *it != m[key]) { viol("C16.map.tree_insert_key:returned-iterator", "wrong iterator / value overwritten"); return; } if (a == 0) { kept = it; kept_valid = true; kept_age = -1; invalidates = false; } break; }
+      case 1: { op = "insert_value"; o << op << "(" << key << "," << x << ")"; tr(o.str()); CO_Tree::iterator it = t.insert(key, x); m[key] = x; if (it == t.end() || it.index() != key || *it != x) { viol("C16.map.tree_insert_value:returned-iterator", "wrong iterator"); return; } if (a == 0) { kept = it; kept_valid = true; kept_age = -1; invalidates = false; } break; }
+      case 2: { std::string hk; CO_Tree::iterator h = hint(hk); op = "insert_hint_key"; o << op << "[" << hk << "](" << key << ")"; tr(o.str()); CO_Tree::iterator it = t.insert(h, key); if (!m.count(key)) m[key] = 0; if (it == t.end() || it.index() != key || *it != m[key]) { viol("C16.map.tree_insert_hint_key:returned-iterator-" + hk + "-hint", "wrong iterator / value overwritten"); return; } if (a == 0) { kept = it; kept_valid = true; kept_age = -1; invalidates = false; } op += "." + hk; break; }
+      case 3: case 4: { std::string hk; CO_Tree::iterator h = hint(hk); op = "insert_hint_value"; o << op << "[" << hk << "](" << key << "," << x << ")"; tr(o.str()); CO_Tree::iterator it = t.insert(h, key, x); m[key] = x; if (it == t.end() || it.index() != key || *it != x) { viol("C16.map.tree_insert_hint_value:returned-iterator-" + hk + "-hint", "wrong iterator"); return; } if (a == 0) { kept = it; kept_valid = true; kept_age = -1; invalidates = false; } op += "." + hk; break; }
+      case 5: case 6: { if (!m.empty() && coin(70)) { Model::const_iterator p = m.lower_bound(key); if (p == m.end()) p = m.begin(); key = p->first; } op = "erase_key"; o << op << "(" << key << ")"; tr(o.str()); CO_Tree::iterator nx = t.erase(key); m.erase(key);
+        Model::const_iterator mn = m.upper_bound(key); if (mn == m.end() ? nx != t.end() : (nx == t.end() || nx.index() != mn->first)) { viol("C16.map.tree_erase_key:returned-iterator", "erase(key) did not return the next element"); return; } if (a == 0) { kept = nx; kept_valid = true; kept_age = -1; invalidates = false; } break; }
+      case 7: { if (m.empty()) { op.clear(); break; } CO_Tree::iterator it = t.bisect(key); dimension_type k = it.index(); op = "erase_iterator"; o << op << "(" << k << ")"; tr(o.str()); CO_Tree::iterator nx = t.erase(it); m.erase(k);
+        Model::const_iterator mn = m.upper_bound(k); if (mn == m.end() ? nx != t.end() : (nx == t.end() || nx.index() != mn->first)) { viol("C16.map.tree_erase_iterator:returned-iterator", "erase(itr) did not return the next element"); return; } if (a == 0) { kept = nx; kept_valid = true; kept_age = -1; invalidates = false; } break; }
+      case 8: { op = "erase_during_iteration"; int pct = rnd(10, 90); o << op << "(" << pct << "%)"; tr(o.str()); CO_Tree::iterator it = t.begin(); while (it != t.end()) { dimension_type k = it.index(); if (coin(pct)) { it = t.erase(it); m.erase(k); } else ++it; } break; }
+      case 9: { op = "erase_element_and_shift_left"; o << op << "(" << key << ")"; tr(o.str()); t.erase_element_and_shift_left(key); Model nm; for (Model::const_iterator q = m.begin(); q != m.end(); ++q) { if (q->first == key) continue; nm[q->first > key ? q->first - 1 : q->first] = q->second; } m.swap(nm); break; }
+      case 10: { dimension_type n = rnd(0, regime < 3 ? 3 : 50); op = "increase_keys_from"; o << op << "(" << key << "," << n << ")"; tr(o.str()); dimension_type kk = 0; bool kv = a == 0 && kept_valid && kept != t.end(); if (kv) kk = kept.index();
+        t.increase_keys_from(key, n); Model nm; for (Model::const_iterator q = m.begin(); q != m.end(); ++q) nm[q->first >= key ? q->first + n : q->first] = q->second; m.swap(nm); invalidates = false;
+        if (kv) { checked(); dimension_type want = kk >= key ? kk + n : kk; if (kept.index() != want) { viol("C16.map.tree_increase_keys_from:kept-iterator", "kept iterator reads key " + std::to_string(kept.index()) + " expected " + std::to_string(want)); return; } } break; }
+      case 11: { if (m.empty()) { op.clear(); break; } CO_Tree::iterator it = t.bisect(key); dimension_type k = it.index(); Model::const_iterator pm = m.find(k); dimension_type lo = 0; if (pm != m.begin()) { --pm; lo = pm->first + 1; } dimension_type to = lo + (dimension_type) rnd(0, (int) std::min<dimension_type>(k - lo, 1000));
+        op = "fast_shift"; o << op << "(" << to << ",@" << k << ")"; tr(o.str()); t.fast_shift(to, it); Z v = m[k]; m.erase(k); m[to] = v; invalidates = false; if (it.index() != to) { viol("C16.map.tree_fast_shift:iterator", "iterator does not read the new key"); return; } break; }
+      case 12: case 13: case 14: case 15: { op = "bisect"; std::string hk; CO_Tree::iterator h = hint(hk); o << op << "[" << hk << "](" << key << ")"; tr(o.str()); checked(); invalidates = false; const CO_Tree& ct = t; CO_Tree::const_iterator ch = h;
+        CO_Tree::iterator b1 = t.bisect(key), b2 = t.bisect_near(h, key); CO_Tree::const_iterator b3 = ct.bisect(key), b4 = ct.bisect_near(ch, key);
+        if (!bisect_ok(m, key, b1 == t.end(), b1 == t.end() ? 0 : b1.index()) || !bisect_ok(m, key, b3 == ct.end(), b3 == ct.end() ? 0 : b3.index())) { viol("C16.map.tree_bisect", "bisect(" + std::to_string(key) + ") wrong; model " + show(m, 0)); return; }
+        if (!bisect_ok(m, key, b2 == t.end(), b2 == t.end() ? 0 : b2.index()) || !bisect_ok(m, key, b4 == ct.end(), b4 == ct.end() ? 0 : b4.index())) { viol("C16.map.tree_bisect_near:" + hk + "-hint", "bisect_near(" + std::to_string(key) + ") wrong; model " + show(m, 0)); return; }
+        if (m.size() >= 2) { // bisect_in over a sub-range [first,last] given by two elements
+          Model::const_iterator p = m.lower_bound(rnd(0, (int) KMAX - 1)), q2 = m.lower_bound(rnd(0, (int) KMAX - 1)); if (p == m.end()) p = m.begin(); if (q2 == m.end()) { q2 = m.end(); --q2; } if (p->first > q2->first) std::swap(p, q2);
+          CO_Tree::iterator f = t.bisect(p->first), l = t.bisect(q2->first); dimension_type kk = p->first + (dimension_type) rnd(0, (int) std::min<dimension_type>(q2->first - p->first, 100000));
+          CO_Tree::iterator bi = t.bisect_in(f, l, kk); CO_Tree::const_iterator cf = f, cl = l; CO_Tree::const_iterator bc = ct.bisect_in(cf, cl, kk);
+          Model sub(p, ++Model::const_iterator(q2));
+          if (bi == t.end() || bc == ct.end() || !bisect_ok(sub, kk, false, bi.index()) || bc.index() != bi.index()) { viol("C16.map.tree_bisect_in", "bisect_in([" + std::to_string(p->first) + "," + std::to_string(q2->first) + "]," + std::to_string(kk) + ") wrong"); return; } }
+        if (a == 0 && (!kept_valid || coin(40))) { kept = b2; kept_valid = true; kept_age = -1; } op += "." + hk; break; }
+      case 16: { op = "write_through_iterator"; if (m.empty()) { op.clear(); break; } CO_Tree::iterator it = t.bisect(key); o << op << "(@" << it.index() << "," << x << ")"; tr(o.str()); *it = x; m[it.index()] = x; invalidates = false; break; }
+      case 17: { int how = rnd(0, 3); op = how == 0 ? "m_swap" : how == 1 ? "swap" : how == 2 ? "copy_construct" : "assign"; o << op << "(other)"; tr(o.str()); using std::swap;
+        if (how == 0) { t.m_swap(B.t); m.swap(B.m); } else if (how == 1) { swap(t, B.t); m.swap(B.m); } else if (how == 2) { CO_Tree c(B.t); t.m_swap(c); m = B.m; } else { t = B.t; m = B.m; if (coin(20)) { t = t; } }
+        kept_valid = false; break; }
+      case 18: { // sequence constructor, sizes of every kind (the density rule picks the reserved size)
+        op = "construct_from_sequence"; Model nm; int n = coin() ? rnd(0, 12) : rnd(0, 300); dimension_type k = 0; for (int q = 0; q < n; ++q) { k += rnd(1, 7); nm[k] = rand_z(); } o << op << "(" << n << ")"; tr(o.str()); CO_Tree c(Model_It(nm.begin()), nm.size()); t.m_swap(c); m.swap(nm); break; }
+      case 19: { if (coin(70)) { op.clear(); break; } op = "clear"; o << op << "()"; tr(o.str()); t.clear(); m.clear(); break; }
+      case 20: { op = "insert_burst"; int n = rnd(3, regime < 3 ? 6 : 60); o << op << "(" << n << ")"; tr(o.str()); CO_Tree::iterator it = coin() ? t.end() : t.begin(); dimension_type k = key; bool up = coin(75);
+        for (int q = 0; q < n; ++q) { Z v = rand_z(); it = t.insert(it, k, v); m[k] = v; if (it.index() != k) { viol("C16.map.tree_insert_burst:returned-iterator", "hinted insert returned another key"); return; } dimension_type stp = rnd(1, 5); if (up) k += stp; else { if (k < stp) break; k -= stp; } } break; }
+      case 21: { op = "erase_burst"; int n = rnd(3, regime < 3 ? 6 : 60); o << op << "(" << n << ")"; tr(o.str()); for (int q = 0; q < n && !m.empty(); ++q) { Model::iterator p = m.lower_bound(rnd(0, (int) KMAX - 1)); if (p == m.end()) p = m.begin(); dimension_type k = p->first; if (coin()) t.erase(k); else t.erase(t.bisect(k)); m.erase(p); } break; }
+      case 22: { op = "iterator_algebra"; o << op << "()"; tr(o.str()); invalidates = false; checked(); if (m.empty()) { if (t.begin() != t.end() || t.cbegin() != t.cend()) { viol("C16.map.tree_iterator_algebra", "begin() != end() on an empty tree"); return; } break; }
+        CO_Tree::iterator i = t.bisect(key); CO_Tree::iterator j = i; CO_Tree::const_iterator ci = i; Model::const_iterator p = m.find(i.index());
+        ++j; ++p; if (p == m.end() ? j != t.end() : (j == t.end() || j.index() != p->first)) { viol("C16.map.tree_iterator_algebra", "++ goes to a wrong element"); return; }
+        --j; if (j != i || j.index() != i.index() || ci.index() != i.index() || *ci != *i) { viol("C16.map.tree_iterator_algebra", "-- after ++ does not come back"); return; }
+        CO_Tree::iterator k2 = j++; if (k2 != i) { viol("C16.map.tree_iterator_algebra", "post-increment returns a wrong value"); return; } CO_Tree::iterator k3 = j--; (void) k3; if (j != i) { viol("C16.map.tree_iterator_algebra", "post-decrement wrong"); return; }
+        CO_Tree::iterator sw1 = t.begin(), sw2 = i; sw1.m_swap(sw2); if (sw1 != i || sw2 != t.begin()) { viol("C16.map.tree_iterator_algebra", "iterator m_swap wrong"); return; } break; }
+      default: { op = "memory"; o << op << "()"; tr(o.str()); invalidates = false; (void) t.external_memory_in_bytes(); if (CO_Tree::max_size() < t.size()) { viol("C16.map.tree_max_size", "max_size() below size()"); return; } break; }
+      }
+    } catch (const Logical_Timeout&) { throw; }
+    catch (const std::exception& e) { viol("C16.map.tree_" + (op.empty() ? std::string("unknown") : op) + ":unexpected-exception", std::string(typeid(e).name()) + ": " + e.what()); return; }
+    RD_GUARD_END("CO_Tree." + op)
+    if (op.empty()) continue;
+    if (invalidates) kept_valid = false; else if (kept_valid) ++kept_age;
+    hx::count("op.tree." + op.substr(0, op.find('.')));
+    { dimension_type R = A.rt.last; hx::distinct("tree|" + op + "|R" + std::to_string(R) + "|fill" + std::to_string(R ? (10 * A.t.size()) / R : 0)); }
+    if (!check_tree(A, "tree_" + op) || !check_tree(B, "tree_" + op)) return;
+  }
+}
